@@ -283,6 +283,51 @@ func ruleStoredBodyComplete(c *Ctx, rule string) {
 			}
 		}
 	})
+	// the read may sit in a helper that takes the response and reports the read's error
+	instrsOf(ep, func(in ssa.Instruction) {
+		call, ok := in.(*ssa.Call)
+		if !ok {
+			return
+		}
+		for _, cal := range c.P.RepoCallees(call) {
+			rs := sigResults(cal)
+			if len(rs) == 0 || !types.Identical(rs[len(rs)-1], types.Universe.Lookup("error").Type()) {
+				continue
+			}
+			takesResp := false
+			for _, a := range call.Call.Args {
+				if isHTTPResponsePtr(a.Type()) {
+					takesResp = true
+				}
+			}
+			if !takesResp {
+				continue
+			}
+			readsBody := false
+			instrsOf(cal, func(i2 ssa.Instruction) {
+				cc := callOf(i2)
+				if cc == nil || !(callIsPkgFunc(cc, "io", "ReadAll") || callIsPkgFunc(cc, "io", "Copy") || callIsMethod(cc, "bytes", "Buffer", "ReadFrom")) {
+					return
+				}
+				for _, a := range cc.Args {
+					c.P.TraceBack(a, TraceOpts{ThroughOps: true, NoParams: true}, func(v ssa.Value, _ []int) bool {
+						if u, ok := v.(*ssa.UnOp); ok {
+							if fa, ok := u.X.(*ssa.FieldAddr); ok && isHTTPResponsePtr(fa.X.Type()) && fieldName(fa.X.Type(), fa.Field) == "Body" {
+								readsBody = true
+								return false
+							}
+						}
+						return true
+					})
+				}
+			})
+			// the helper reports the failure: no `return nil` is reachable in it with the read's error set (checked
+			// structurally: its error result depends on the read)
+			if readsBody {
+				reads = append(reads, call)
+			}
+		}
+	})
 	if len(reads) == 0 {
 		c.Fail(rule, "stored-body-read", desc, c.P.ShortName(ep)+": the body is handed out as a reader over the stored bytes without being read; an entry whose end is missing is served as a hit and the client's read ends in `unexpected EOF`")
 		return
@@ -290,8 +335,11 @@ func ruleStoredBodyComplete(c *Ctx, rule string) {
 	// every success return is reached only with that read's error being nil
 	errOf := func(call *ssa.Call) []ssa.Value {
 		var out []ssa.Value
+		if types.Identical(call.Type(), types.Universe.Lookup("error").Type()) {
+			out = append(out, call)
+		}
 		if call.Referrers() == nil {
-			return nil
+			return out
 		}
 		for _, r := range *call.Referrers() {
 			if ex, ok := r.(*ssa.Extract); ok && types.Identical(ex.Type(), types.Universe.Lookup("error").Type()) {
@@ -921,48 +969,26 @@ func ruleEscapeOnlyInQuotes(c *Ctx, rule string) {
 	}
 	n := 0
 	bad := ""
-	for _, fn := range append([]*ssa.Function{split}, split.AnonFuncs...) {
-		instrsOf(fn, func(in ssa.Instruction) {
-			phi, ok := in.(*ssa.Phi)
-			if !ok || !isBoolType(phi.Type()) {
-				return
+	st := splitterState(split)
+	for _, site := range st.escSites {
+		n++
+		inQuotes := false
+		for _, dc := range site.conds {
+			if dc.cond == nil {
+				continue
 			}
-			for i, e := range phi.Edges {
-				b, isC := constBool(e)
-				if !isC || !b {
-					continue
-				}
-				pred := phi.Block().Preds[i]
-				isEscEdge := false
-				inQuotes := false
-				for _, dc := range append(dominatingConds(pred), lastCond(pred, phi.Block())...) {
-					// the in-quotes state is a loop-carried boolean: the condition itself is that phi
-					if p2, ok := dc.cond.(*ssa.Phi); ok && dc.onTrue && isBoolType(p2.Type()) && p2 != phi {
-						inQuotes = true
-					}
-					for _, lf := range condLeaves(dc.cond, dc.onTrue) {
-						if bo, ok := lf.v.(*ssa.BinOp); ok && lf.val && bo.Op == token.EQL {
-							if k, ok := constInt(bo.Y); ok && k == '\\' {
-								isEscEdge = true
-							}
-							if k, ok := constInt(bo.X); ok && k == '\\' {
-								isEscEdge = true
-							}
-						}
-						if p2, ok := lf.v.(*ssa.Phi); ok && lf.val && isBoolType(p2.Type()) && p2 != phi {
-							inQuotes = true
-						}
-					}
-				}
-				if !isEscEdge {
-					continue
-				}
-				n++
-				if !inQuotes {
-					bad = c.P.ShortName(fn) + "@" + c.P.Pos(phi.Pos())
+			if dc.onTrue && st.isOtherFlagRead(dc.cond) {
+				inQuotes = true
+			}
+			for _, lf := range condLeaves(dc.cond, dc.onTrue) {
+				if lf.val && st.isOtherFlagRead(lf.v) {
+					inQuotes = true
 				}
 			}
-		})
+		}
+		if !inQuotes {
+			bad = c.P.ShortName(split) + "@" + c.P.Pos(site.pos)
+		}
 	}
 	switch {
 	case n == 0:
@@ -1137,6 +1163,35 @@ func ruleBackgroundCancelCleared(c *Ctx) {
 			cleared = c.P.InstrPos(in)
 		}
 	})
+	// the background request may be prepared by a helper (clone, clear, add validators): the clearing then sits there,
+	// on a request that the helper's result derives from
+	for v := range origins {
+		call, ok := v.(*ssa.Call)
+		if !ok {
+			continue
+		}
+		for _, cal := range c.P.RepoCallees(call) {
+			for _, g := range c.reachableFrom(cal) {
+				instrsOf(g, func(in ssa.Instruction) {
+					st, ok := in.(*ssa.Store)
+					if !ok || !isNilConst(st.Val) {
+						return
+					}
+					fa, ok := st.Addr.(*ssa.FieldAddr)
+					if !ok || !ptrTo(fa.X.Type(), "net/http", "Request") || fieldName(fa.X.Type(), fa.Field) != "Cancel" {
+						return
+					}
+					// on a copy made there (the result of a clone call), on every path to the helper's return
+					if _, isCall := c.An.canon(fa.X).(*ssa.Call); isCall && g == cal {
+						pr := c.An.Prune(g, nil)
+						if res := c.An.MustPass(pr, nil, func(i2 ssa.Instruction) bool { return i2 == in }); res.OK {
+							cleared = c.P.InstrPos(in)
+						}
+					}
+				})
+			}
+		}
+	}
 	// a request built with http.NewRequestWithContext (no clone of the caller's) has no Cancel channel either
 	fresh := false
 	for v := range origins {
